@@ -18,7 +18,7 @@ THEOREMS = [
 RULE = ("CBinaryStreamReader operation histories (peek/next/readByte/solid/chunks/setPosition/getPosition/isEnd) on byte strings of "
         "length 0..1000 aimed at the 256-byte cache boundary, judged against the abstract cursor; MsgPack scope histories run from "
         "memory AND from a stream on the same documents (paired ops must give identical answers); non-trivial = history touching "
-        "more than one chunk or a backward SetPosition; distinct = distinct op lines")
+        "more than one chunk or a backward SetPosition; every MsgPack writer entry point (C06's generator) through the string writer AND the stream writer, bytes compared; distinct = distinct op lines")
 EXHAUSTIVE = {"quick": False, "thorough": False}
 ASSUMPTIONS = ["CSV stream input is UTF-8 without BOM (encoding detection is C13)", "seekable std::istringstream; short-read and non-seekable streambufs are not modelled (flags only)",
                "chunk size fixed at 256 in the executed code; the model and theorems are generic in N"]
@@ -27,6 +27,8 @@ ASSUMPTIONS = ["CSV stream input is UTF-8 without BOM (encoding detection is C13
 def nontrivial(op, impl):
     if op.startswith("csv."):
         return nontrivial_c10(op, impl)
+    if op.startswith("mp.write"):
+        return len(impl) > 12
     return "set:" in op or len(op) > 600
 
 
@@ -39,7 +41,22 @@ def gen(tier, rng, boost=1):
         ops.append(" ".join([t[0], "mem"] + t[2:]))
         ops.append(" ".join([t[0], "stream"] + t[2:]))
     ops += gen_c10(tier, rng, boost)
+    # "saving to a stream yields exactly the bytes of saving to memory": every writer entry point of both MsgPack writers
+    from .C06 import gen as gen_c06
+    ops += gen_c06(tier, rng, boost)
     return ops
+
+
+def adjust_verdict(op, impl, verdict):
+    """mp.write ops are borrowed from C06 and judged here only for C10's own question: do CMsgPackStringWriter and
+    CMsgPackStreamWriter produce the same bytes / the same error? (the bytes themselves are C06's business)"""
+    if not op.startswith("mp.write"):
+        return verdict
+    if " diff " in impl or impl.startswith("mixed"):
+        return "bad:stream_writer_bytes_differ_from_memory_writer"
+    if impl.startswith("crash:") or impl in ("terminate", "timeout"):
+        return "bad:" + impl.replace(" ", "_")
+    return "ok"
 
 
 def extra_checks(ops, impl, res, known_classes, known_hits):
